@@ -222,8 +222,12 @@ def range_of(body, cfg, conds, o, term, site_bb, used, depth=0):
             shape = rs[0]
         elif name.endswith(("RangeInclusive::<Idx>::new", "RangeInclusive::new")) and len(rs) == 2:
             shape = (rs[0][0], rs[1][1])
-        elif name.endswith(("::len", "::count_ones", "::leading_zeros")):
+        elif name.endswith(("::len", "::count_ones", "::leading_zeros", "Duration::as_millis", "Duration::subsec_nanos")):
             shape = (0, None)
+        elif name.endswith("Duration::as_secs"):
+            shape = (0, 2 ** 64 - 1)
+        elif name.endswith(("::div_ceil", "::div_euclid")) and len(rs) == 2 and rs[0][0] is not None and rs[0][0] >= 0 and rs[1][0] is not None and rs[1][0] >= 1:
+            shape = (0, None if rs[0][1] is None else -(-rs[0][1] // rs[1][0]))
         elif name.endswith("::unwrap_or") and len(rs) == 2:
             shape = (_mn(rs[0][0], rs[1][0]), _mx(rs[0][1], rs[1][1]))
     elif k == "len":
@@ -237,6 +241,14 @@ def range_of(body, cfg, conds, o, term, site_bb, used, depth=0):
         lo = None if any(r[0] is None for r in rs) else min(r[0] for r in rs)
         hi = None if any(r[1] is None for r in rs) else max(r[1] for r in rs)
         shape = (lo, hi)
+    elif k == "unop" and len(term) > 2 and term[1] == "Neg":
+        a = range_of(body, cfg, conds, o, term[2], site_bb, used, depth + 1)
+        shape = (None if a[1] is None else -a[1], None if a[0] is None else -a[0])
+    elif k == "binop" and term[1] == "Div":
+        a = range_of(body, cfg, conds, o, term[2], site_bb, used, depth + 1)
+        b = range_of(body, cfg, conds, o, term[3], site_bb, used, depth + 1)
+        if a[0] is not None and a[0] >= 0 and b[0] is not None and b[0] >= 1:
+            shape = (0, None if a[1] is None else a[1] // b[0])
     elif k == "binop" and term[1] in ("Add", "Sub") :
         a = range_of(body, cfg, conds, o, term[2], site_bb, used, depth + 1)
         b = range_of(body, cfg, conds, o, term[3], site_bb, used, depth + 1)
